@@ -37,8 +37,8 @@ func init() {
 
 // params identify a case.
 type params struct {
-	Part    string        `json:"part"`   // rt | client | server | session
-	Name    string        `json:"name"`   // message type or method
+	Part    string        `json:"part"` // rt | client | server | session
+	Name    string        `json:"name"` // message type or method
 	Version int           `json:"version"`
 	Devs    []methods.Dev `json:"deviations"`
 	Extra   string        `json:"extra,omitempty"`
@@ -194,7 +194,7 @@ func run(ctx *fw.Ctx, rep *fw.Report) {
 	r.payloadC = p
 
 	rep.Rule = "every case is a field-value vector: the all-defaults vector (byte-distinct, asymmetric defaults), every 1-field deviation over the full alphabet, and 2-field deviations " +
-		"(quick: one member over its full alphabet x the other over a 2-value reduced alphabet; thorough: full x full, each alphabet capped at its first 24 values for pairs). " +
+		"(quick: one member over its full alphabet x the other over a 2-value reduced alphabet; thorough: full x full; for pairs each alphabet is capped at its first 24 (quick) / 64 (thorough) values, which only the exhaustive mask alphabets exceed). " +
 		"Alphabets: u8 {0,1,0x7f,0x80,0xff}; u16 {0,1,0xff,0x100,0x7fff,0x8000,0xfffe,0xffff}; u32/u64 the same pattern plus sentinels (NOTAG, NOFID, NoUID/NoGID) and byte-distinct values; " +
 		"strings: lengths {0,1,2,255,256,32767,32768,65535} x contents {ASCII, embedded NUL, '/', 0x80-0xff, invalid UTF-8}; name/QID/dirent lists of {0,1,2,3,16,255} elements and one-element lists over every element-field alphabet; " +
 		"payloads {0,1,511,512,513,piece-1,piece}; permission/mode fields incl. type bits and 0xffffffff; all 2^14 getattr masks and all 2^9 setattr masks. " +
@@ -206,10 +206,7 @@ func run(ctx *fw.Ctx, rep *fw.Report) {
 		"path-component names sent to the real Server are valid single components (C09 owns invalid ones); arbitrary strings go through symlink targets, version strings, attach/auth names, lock client ids, xattr names, dirent names and readlink results, and through VerifRoundTrip for name positions",
 		"fields the session cannot observe are covered by VerifRoundTrip only: all of Rauth and Tauth (the server answers ENOSYS whatever the fields), Rattach.qid on the client side, Tattach.uname/n_uname on the server side, Rxattrcreate/Rflush on the client side, Txattrcreate.attr_size beyond what can be written, Rxattrwalk.size and Rwrite.count beyond the buffer, Tflush/Txattrcreate on the client side (never sent)")
 
-	r.partRT()
-	r.partClient()
-	r.partServer()
-	r.partSession()
+	r.runPart("")
 
 	// report the smallest case per fingerprint
 	var fps []string
@@ -219,6 +216,9 @@ func run(ctx *fw.Ctx, rep *fw.Report) {
 	sort.Strings(fps)
 	for _, fp := range fps {
 		h := r.found[fp]
+		if r.replay == nil {
+			h = r.minimize(h)
+		}
 		detail := append([]string{h.pr.Human}, h.f.detail...)
 		rep.Violate(&fw.Violation{Fingerprint: fp, Scenario: "c01-" + h.pr.Part, Params: fw.JSON(h.pr), Summary: h.f.msg, Detail: detail})
 	}
@@ -232,6 +232,61 @@ func run(ctx *fw.Ctx, rep *fw.Report) {
 		rep.Info["client_io_piece"] = r.payloadC
 		rep.Info["server_msize"] = msizeS
 	}
+}
+
+func (r *runner) runPart(part string) {
+	if part == "" || part == "rt" {
+		r.partRT()
+	}
+	if part == "" || part == "client" {
+		r.partClient()
+	}
+	if part == "" || part == "server" {
+		r.partServer()
+	}
+	if part == "" || part == "session" {
+		r.partSession()
+	}
+}
+
+// minimize looks for a smaller case with the same fingerprint: no deviation
+// or a single one of the original deviations, at the lowest version.
+func (r *runner) minimize(h *hit) *hit {
+	if h.ndevs == 0 && h.version == 0 {
+		return h
+	}
+	var subsets [][]methods.Dev
+	subsets = append(subsets, nil)
+	if h.ndevs > 1 {
+		for _, d := range h.pr.Devs {
+			subsets = append(subsets, []methods.Dev{d})
+		}
+	}
+	subsets = append(subsets, h.pr.Devs)
+	versions := []int{h.version}
+	switch h.pr.Part {
+	case "client":
+		versions = []int{0, 1, 2, 3, 4, 5, 6, 7}
+	case "server":
+		versions = serverVersions
+	}
+	savedFound, savedReplay := r.found, r.replay
+	defer func() { r.found, r.replay = savedFound, savedReplay }()
+	for _, devs := range subsets {
+		for _, v := range versions {
+			if len(devs) > h.ndevs || (len(devs) == h.ndevs && v >= h.version) {
+				continue
+			}
+			p := h.pr
+			p.Devs, p.Version = devs, v
+			r.replay, r.found = &p, map[string]*hit{}
+			r.runPart(p.Part)
+			if c, ok := r.found[h.f.fp]; ok {
+				return c
+			}
+		}
+	}
+	return h
 }
 
 // show renders a message for reports.
